@@ -20,7 +20,7 @@ impl DetectProp for C04 {
     }
     fn gen(&self, rng: &mut Rng, corpus: &[(String, Vec<u8>)], idx: usize) -> Case {
         let mut c = structured_case(rng, corpus);
-        match idx % 6 {
+        match idx % 3 {
             0 => {
                 // threshold equal to a chaos value observed in a first pass (both sides of >=)
                 if let Outcome::Ok(v) = real_detect(&c.bytes, &{
@@ -28,18 +28,23 @@ impl DetectProp for C04 {
                     s.thr = 1.0;
                     s
                 }) {
-                    if let Some(m) = v.iter().find(|m| m.chaos != 0) {
+                    let nz: Vec<&CMatch> = v.iter().filter(|m| m.chaos != 0).collect();
+                    if !nz.is_empty() {
+                        let m = *rng.pick(&nz);
                         let x = f32::from_bits(m.chaos);
-                        c.sett.thr = match rng.below(3) {
-                            0 => x,
-                            1 => f32::from_bits(m.chaos + 1),
+                        c.sett.thr = match rng.below(4) {
+                            0 | 1 => x,
+                            2 => f32::from_bits(m.chaos + 1),
                             _ => f32::from_bits(m.chaos - 1),
                         };
+                        if rng.chance(2, 3) {
+                            c.sett.fb = false;
+                        }
                         c.tag = format!("thr=observed:{}", c.tag);
                     }
                 }
             }
-            1 => {
+            1 if idx % 6 == 1 => {
                 // messy but valid UTF-8
                 let n = rng.range(5, 400);
                 let pool: Vec<char> = "☺☹★☆♠♣♥♦§¶†‡•…‰′″‹›€™←↑→↓∂∆∏∑−√∞∫≈≠≤≥◊\u{1}\u{2}\u{7}\u{1b}".chars().collect();
